@@ -841,3 +841,45 @@ def c05_l8(ctx):
             yield ok("C05-L8", key, at(f, st["span"]["line"]), "`None` only under condition == NoError")
         else:
             yield bad("C05-L8", key, at(f, st["span"]["line"]), "the decoder yields no fault location on a path where the condition is not known to be 'No error': an EOF PDU reporting an error loses its fault location (decode(encode(v)) != v)")
+
+
+# ================================================================ C05-L9: decoded integers are unsigned
+SIGNED = ("i8", "i16", "i32", "i64", "i128", "isize")
+
+
+def is_signed_read(cal):
+    last = cal.split("::")[-1]
+    return ("ReadBytesExt" in cal or "byteorder" in cal) and (last in ("read_int", "read_int128", "read_i8", "read_i16", "read_i24", "read_i32", "read_i48", "read_i64", "read_i128") or last.startswith("read_i") and last.endswith("_into"))
+
+
+@rule("C05", "C05-L9", 1, "every wire integer is decoded as an unsigned quantity: no decoder uses a signed read and none widens a signed value (a sign-extending read turns a small-flag size in the upper half of its range into a different 64-bit value)", also=("C06", "C15"))
+def c05_l9(ctx):
+    from rules_codec import decode_roots
+
+    roots = decode_roots(ctx.prog)
+    seen = ctx.prog.reach(roots)
+    fns = [ctx.prog.by_norm[nm] for nm in sorted(seen) if ctx.prog.by_norm[nm].crate == "cfdp_core"]
+    if len(fns) < 30:
+        raise Anchor("C05-L9", "functions of the decode graph (%d found)" % len(fns))
+    n = 0
+    INT_W = {"u8": 8, "u16": 16, "u32": 32, "u64": 64, "u128": 128, "usize": 64, "i8": 8, "i16": 16, "i32": 32, "i64": 64, "i128": 128, "isize": 64}
+    for f in fns:
+        if f.name == "encode" or "encode" in (f.root or ""):
+            continue
+        for b, t in f.all_calls():
+            d, r, _ = ctx.prog.callee_of(t)
+            cal = r or d or ""
+            if is_signed_read(cal) or (cal.split("::")[-1] in ("from_be_bytes", "from_le_bytes", "from_ne_bytes") and any(("::%s::" % sg) in cal or cal.startswith(sg + "::") or ("<%s>" % sg) in cal for sg in SIGNED)):
+                n += 1
+                yield bad("C05-L9", "%s:%s" % (short(f.impl_self_adt or f.root or f.norm), cal.split("::")[-1]) + ("#%d" % n if n > 1 else ""), at(f, t["span"]["line"]), "%s decodes a wire field as a signed integer: a value with the top bit set is sign-extended when widened (decode(encode(v)) != v for half of the field's range)" % cal)
+        for b in f.live_blocks():
+            for st in f.blocks[b]["stmts"]:
+                if st["k"] != "assign" or st["rv"]["k"] != "cast" or not str(st["rv"].get("cast", "")).startswith("IntToInt"):
+                    continue
+                op = st["rv"]["op"]
+                frm = op.get("place", {}).get("ty") if op.get("k") in ("copy", "move") else op.get("ty")
+                to = st["rv"]["ty"]
+                if frm in SIGNED and to in INT_W and INT_W[to] > INT_W.get(frm, 0) and not f.from_exp:
+                    n += 1
+                    yield bad("C05-L9", "%s:%s->%s" % (short(f.impl_self_adt or f.root or f.norm), frm, to) + ("#%d" % n if n > 1 else ""), at(f, st["span"]["line"]), "a signed %s is widened to %s in a decoder (sign extension)" % (frm, to))
+    yield ok("C05-L9", "decoders:unsigned", "%d functions" % len(fns), "%d signed reads / sign-extending casts" % n, nontrivial=(n == 0))
